@@ -42,6 +42,12 @@ CHECKS = {
    design_ref="DESIGN.md section 4 C04, section 2 E3",
    note="Trusted: vf/denote.py; in-place shadows of module globals (isinstance, abs, min, max, bool, float, math, numpy) and the extended *_types tuples. Assumed: operands are rewriter fix-points (bottom-up traversal); kinds the code never names behave like an opaque leaf; constants' like is a symbol; inference answers of opaque operands are the strongest ones supported by a forked sign/finiteness knowledge class. NOT covered: complex, integer, list/item, apply, bitwise kinds; Expr.rewrite traversal and RewriteContext memo; termination. Known finding (open): sign inference of a quotient with infinite operands / signed-zero divisor (FP clause). `_is_finite` soundness is attempted but not claimed (never acted upon).",
    technique="contract-based deductive verification: symbolic execution of the real rule/inference methods on abstract expressions (holes), per-path verification conditions against an independent denotational semantics, discharged by z3 (QF_NRA / QF_FP); table rows as closed SMT facts"),
+ "C10": dict(
+   category="proof",
+   text="The real building blocks (floating_point_algorithms.add_2sum in all four option sets, split_veltkamp with and without scaling; the utils copies add_2sum/add_fast2sum/double_2sum/double_fast2sum/split_veltkamp/square_dekker; the algorithms.py copies used by complex log/log1p incl. the real splitter-constant selection; apmath.two_sum/quick_two_sum) run on symbolic floats; every rounded operation is logged and gets a bit-precise exactness query (round-up and round-down agree); the postcondition of the statement (s+t = x+y, xh+xl = x, h+l = x*x) is an identity of exact arithmetic over the operations proved exact, decided by canonical forms; the high part is structurally RN(op); both halves of the splitter have at most ceil(p/2) significant bits. Claimed: float16 complete for these, float32 for Fast2Sum variants and the splitters.",
+   design_ref="DESIGN.md section 4 C10, section 2 E1",
+   note="Precondition = documented domain (finite inputs, no overflow in intermediates, |x|>=|y| for Fast2Sum, error term representable for squares). NOT claimed (attempted, reported as best-effort): float32 2Sum (last addition) and every two-operand Dekker product (mul_dekker, multiply_dekker, two_prod: solver budget exhausted even at float16; thorough tier only), all of float64. The make_api dispatch wrapper runs for real; mp_ctx paths not taken.",
+   technique="contract-based deductive verification: real functions on symbolic floats, per-operation exactness VCs in QF_FP (z3/cvc5) + postcondition as ring identity over the proved-exact operations"),
 }
 NA_PENDING = "check not built yet in this session (planned, see DESIGN.md section 4)"
 NA = {
@@ -72,6 +78,7 @@ def main():
       "hooks": {"guard": "FUNCTIONAL_ALGORITHMS_VERIF", "enable": "no hooks are needed: engines instrument through namespaces/subclasses created in /verif; checks import /repo's working tree with PYTHONPATH=/repo", "baseline_off_cmd": "cd /repo && /venv/bin/python -m pytest -ra -q -p no:cacheprovider --timeout=900 --continue-on-collection-errors", "source_commits": [], "add_only": True},
       "engines": [
         {"name": "E0 core", "path": "vf/core.py", "serves_properties": sorted(CHECKS), "kind_free_text": "obligation pool, z3/cvc5 portfolio, verdict protocol, evidence/replay writer"},
+        {"name": "E1 symfp", "path": "vf/symfp.py", "serves_properties": ["C10"], "kind_free_text": "operation log + rounding-mode-agreement exactness queries + ring identity over exact operations"},
         {"name": "E2 symrun", "path": "vf/symrun.py", "serves_properties": ["C07", "C14", "C18", "C19"], "kind_free_text": "runs real code objects on symbolic NumPy scalars / ints with shadowed builtins; decision-prefix path forking; per-path VCs"},
         {"name": "E3 symexpr", "path": "vf/symexpr.py", "serves_properties": ["C04"], "kind_free_text": "abstract expressions with holes: lazy shape refinement, aliasing, key-order and inference-knowledge forks over the real Rewriter/Expr code; vf/denote.py semantics; vf/witness.py native replay"},
         {"name": "E4 ring", "path": "vf/ring.py", "serves_properties": ["C16"], "kind_free_text": "canonical-form polynomial/rational-function arithmetic with path forking on zero tests"},
